@@ -90,6 +90,8 @@ def handle(req: Dict[str, Any]) -> Any:
             for name, fn in (
                 ("dumps", lambda: fj.dumps(v)),
                 ("dumps_compact", lambda: fj.dumps(v, separators=(",", ":"))),
+                # "no pretty printing" spelled out, as the fallback validation backend's model_dump_json passes it
+                ("dumps_indent_none", lambda: fj.dumps(v, indent=None)),
                 # encoding must be a function of the value alone: a pretty-printing call in between
                 # (server.py formats dict tool results with indent=2) must not change later compact output
                 ("dumps_after_pretty", lambda: (fj.dumps({"x": [v]}, indent=2), fj.dumps(v))[1]),
